@@ -18,6 +18,7 @@
   Helper lemmas: `Lemmas/Normalize.lean`, `Lemmas/Tokenize.lean`.
 -/
 import LucidProofs.Lemmas.Tokenize
+import LucidProofs.Lemmas.TableClosure
 
 namespace Lucid
 
@@ -56,8 +57,15 @@ structure TokInv (E : Env) (query : Bool) (input : List Nat) (t : Text) : Prop w
   fin_query_init : query = true → ∀ i w, t.words[i]? = some w → i + 1 < t.words.length → w.fin = true
   fin_query_last : query = true → ∀ w, t.words.getLast? = some w → (w.fin = false ↔ w.hi = t.chars.length)
 
-/-- the stem hypothesis: languages with a Snowball stemmer need the oracle bound, `lang_none` needs nothing -/
-def StemHyp (E : Env) : Prop := E.T.stemmer = true → StemBounded E
+/-- the stem hypothesis: `lang_none` needs nothing; a language with a Snowball stemmer needs
+    * `FoldClosed` reduce table (decided by the kernel for the generated tables): keys are single characters and
+      no replacement character is a key, so after `normalize` no character of the text is a key;
+    * `LowerKeyFree` (oracle/table fact checked by the harness): lower-casing does not create a key;
+    * `StemBounded`: the Snowball oracle returns between 1 and `|w|` characters **for words free of reduce-table
+      keys** — the only words that can reach the stemmer.  (The unrestricted bound is false for the real German
+      stemmer, `stem "ß" = 2`; see `deStem` below.) -/
+def StemHyp (E : Env) : Prop :=
+  E.T.stemmer = true → (FoldClosed E.T.reduce = true ∧ LowerKeyFree E ∧ StemBounded E)
 
 /-! ### from the span invariant to `TokInv` -/
 
@@ -125,9 +133,11 @@ theorem tokInv_of_spanInv (E : Env) (query : Bool) (input : List Nat) (t : Text)
     have hw' : w ∈ t.words := List.mem_of_getLast? hw
     exact (h4.fin _ (sp w hw')).2 hq
 
-/-- the stem clause for the result of `set_stem` on a text whose words are non-empty and in bounds -/
+/-- the stem clause for the result of `set_stem` on a text whose words are non-empty and in bounds and whose
+    characters are free of reduce-table keys (needed only when the language has a stemmer) -/
 theorem setStem_bounds (E : Env) (hS : StemHyp E) (t : Text)
-    (hb : ∀ w ∈ t.words, w.lo < w.hi ∧ w.hi ≤ t.chars.length) :
+    (hb : ∀ w ∈ t.words, w.lo < w.hi ∧ w.hi ≤ t.chars.length)
+    (hk : E.T.stemmer = true → KeyFree E.T.reduce t.chars) :
     ∀ w ∈ (t.setStem E).words, 1 ≤ w.stem ∧ w.stem ≤ w.len := by
   intro w hw
   have hst := setStem_stem E t w hw
@@ -144,7 +154,11 @@ theorem setStem_bounds (E : Env) (hS : StemHyp E) (t : Text)
     have hl := slice_length t.chars w0.lo w0.hi b.2
     have hne : slice t.chars w0.lo w0.hi ≠ [] := by
       intro h; rw [h] at hl; simp at hl; omega
-    have := hS hs _ hne
+    have hkw : ∀ c ∈ slice t.chars w0.lo w0.hi, mapGet E.T.reduce [c] = none := by
+      intro c hc
+      obtain ⟨k, _, _, hk3⟩ := mem_slice _ _ _ _ hc
+      exact hk hs c (List.mem_of_getElem? hk3)
+    have := (hS hs).2.2 _ hne hkw
     omega
 
 /-- steps after `strip`: `lower`, `set_pos`, `set_char_classes`, `set_stem` -/
@@ -152,11 +166,14 @@ theorem tokInv_tail (E : Env) (hU : UnicodeFacts E.U E.K) (hS : StemHyp E) (quer
     (t : Text) (h1 : t.source.length = t.chars.length)
     (h3 : t.words.map (·.offset) = List.range t.words.length)
     (h4 : SpanInv E.U.isAlnum (isSepChar E.U E.K) query t.chars (t.words.map WordShape.span))
-    (h7 : t.source.filter (· ≠ 0) = (compose E.T input).filter (· ≠ 0)) :
+    (h7 : t.source.filter (· ≠ 0) = (compose E.T input).filter (· ≠ 0))
+    (hk : E.T.stemmer = true → KeyFree E.T.reduce t.chars) :
     TokInv E query input ((((t.lower E).setPos E).setCharClasses E).setStem E) := by
+  have hk' : E.T.stemmer = true → KeyFree E.T.reduce (t.lower E).chars :=
+    fun hs => keyFree_lower E (hS hs).2.1 t (hk hs)
   obtain ⟨g, hg, hal, hsep, hup⟩ := lower_spec E E.K hU t
   have h4' := spanInv_map _ _ g hal hsep query t.chars _ h4
-  rw [hg]
+  rw [hg] at hk' ⊢
   obtain ⟨p1, p2, p3, p4, _⟩ := setPos_spans E { t with chars := t.chars.map g }
   obtain ⟨c1, c2, c3, c4⟩ := setCharClasses_spec E (({ t with chars := t.chars.map g } : Text).setPos E)
   obtain ⟨s1, s2, s3, s4, s5⟩ :=
@@ -175,7 +192,7 @@ theorem tokInv_tail (E : Env) (hU : UnicodeFacts E.U E.K) (hS : StemHyp E) (quer
   · rw [s2, c2, p2, hlenw]; exact h3
   · rw [hspans, hchars]; exact h4'
   · rw [hchars]; exact hup
-  · apply setStem_bounds E hS
+  · refine setStem_bounds E hS _ ?_ (by rw [c3, p3]; exact hk')
     intro w hw
     rw [c2] at hw
     rw [c3, p3]
@@ -187,7 +204,8 @@ theorem tokInv_tail (E : Env) (hU : UnicodeFacts E.U E.K) (hS : StemHyp E) (quer
 /-- the whole pipeline after `normalize` (and `fin`): split on whitespace/control/punctuation, strip
     non-alphanumerics, lower, set_pos, set_char_classes, set_stem -/
 theorem tokInv_of_normInv (E : Env) (hU : UnicodeFacts E.U E.K) (hS : StemHyp E) (query : Bool)
-    (input : List Nat) (t : Text) (hn : NormInv E input (!query) t) :
+    (input : List Nat) (t : Text) (hn : NormInv E input (!query) t)
+    (hk : E.T.stemmer = true → KeyFree E.T.reduce t.chars) :
     TokInv E query input
       ((((((t.split E [CharClass.whitespace, CharClass.control, CharClass.punctuation]).strip E
         [CharClass.notAlphaNum]).lower E).setPos E).setCharClasses E).setStem E) := by
@@ -205,6 +223,7 @@ theorem tokInv_of_normInv (E : Env) (hU : UnicodeFacts E.U E.K) (hS : StemHyp E)
   · exact b2
   · rw [b1, b3, a3]; exact hstrip
   · rw [b4, a4]; exact hs
+  · rw [b3, a3]; exact hk
 
 /-! ### the property theorems -/
 
@@ -215,6 +234,7 @@ theorem C15_query_anyK (E : Env) (hU : UnicodeFacts E.U E.K) (hT : TablesOK E.T 
     (s : List Nat) : TokInv E true s (runSteps E Gen.srcQuerySteps s) := by
   show TokInv E true s (((((((((Text.fromChars s).normalize E).setFin false).split E _).strip E _).lower E).setPos E).setCharClasses E).setStem E)
   exact tokInv_of_normInv E hU hS true s _ (setFin_normInv E s true false _ (normalize_fromChars E hT s))
+    (fun hs => normalize_fromChars_keyFree E (hS hs).1 s)
 
 /-- **C15 (records), any constants.** Same for the generated record pipeline (no `fin` step: all words are
     finished). -/
@@ -222,6 +242,7 @@ theorem C15_record_anyK (E : Env) (hU : UnicodeFacts E.U E.K) (hT : TablesOK E.T
     (s : List Nat) : TokInv E false s (runSteps E Gen.srcRecordSteps s) := by
   show TokInv E false s ((((((((Text.fromChars s).normalize E).split E _).strip E _).lower E).setPos E).setCharClasses E).setStem E)
   exact tokInv_of_normInv E hU hS false s _ (normalize_fromChars E hT s)
+    (fun hs => normalize_fromChars_keyFree E (hS hs).1 s)
 
 /-- **C15 for `tokenize_query`.** What a user learns: whatever text is typed and whichever language is
     chosen, the tokenized query has source, normalised and class arrays of one length; its words are numbered
@@ -232,8 +253,11 @@ theorem C15_record_anyK (E : Env) (hU : UnicodeFacts E.U E.K) (hT : TablesOK E.T
     exactly when it reaches the end of the text.
     Hypotheses: the constants are the generated ones (`hK`), the Unicode oracle satisfies `UnicodeFacts` with
     the generated punctuation set (checked against Rust's `std` by the harness), the language tables satisfy
-    `TablesOK` (decided by the kernel for the seven generated languages), and the Snowball oracle is bounded
-    if the language has a stemmer. -/
+    `TablesOK` (decided by the kernel for the seven generated languages), and, if the language has a
+    stemmer, `StemHyp`: the reduce table is `FoldClosed` (kernel-decided), lower-casing creates no reduce-table
+    key (`LowerKeyFree`, checked by the harness against `std` and the tables), and the Snowball oracle is bounded
+    on words free of reduce-table keys (`StemBounded`; satisfiable by a stemmer with `stem "ß" = 2`, see
+    `C15_query_eszett`). -/
 theorem C15_query (E : Env) (hK : E.K = Gen.srcConsts) (hU : UnicodeFacts E.U Gen.srcConsts)
     (hT : TablesOK E.T = true) (hS : StemHyp E) (s : List Nat) :
     TokInv E true s (runSteps E Gen.srcQuerySteps s) :=
@@ -363,22 +387,96 @@ def toyStem (w : List Nat) : Nat := (w.length + 1) / 2
 def toyEnv (T : LangTables) : Env := { U := toyU, K := Gen.srcConsts, T := T, stem := toyStem }
 
 theorem toyStem_bounded (T : LangTables) : StemBounded (toyEnv T) := by
-  intro w hw
+  intro w hw _
   have : 0 < w.length := List.length_pos_iff.2 hw
   simp only [toyEnv, toyStem]
   omega
 
+/-- decidable table condition for the toy oracle: the reduce table is `FoldClosed` and none of `a`–`z` (the only
+    characters the toy `to_lowercase` produces) is a key -/
+def ToyTableOK (T : LangTables) : Bool :=
+  FoldClosed T.reduce && (List.range 26).all (fun i => (mapGet T.reduce [97 + i]).isNone)
+
+/-- `LowerKeyFree` for the toy Unicode oracle, any stemmer oracle -/
+theorem toyU_lowerKeyFree (T : LangTables) (stem : List Nat → Nat)
+    (h : (List.range 26).all (fun i => (mapGet T.reduce [97 + i]).isNone) = true) :
+    LowerKeyFree { U := toyU, K := Gen.srcConsts, T := T, stem := stem } := by
+  intro c hc
+  show mapGet T.reduce [if 65 ≤ c ∧ c ≤ 90 then c + 32 else c] = none
+  split
+  · rename_i hr
+    have := (List.all_eq_true.1 h) (c - 65) (List.mem_range.2 (by omega))
+    rw [Option.isNone_iff_eq_none] at this
+    have e : c + 32 = 97 + (c - 65) := by omega
+    rw [e]; exact this
+  · exact hc
+
+/-- the whole stem hypothesis for the toy oracles over a table meeting `ToyTableOK` (decidable; holds for the seven
+    generated languages) -/
+theorem toyStemHyp (T : LangTables) (h : ToyTableOK T = true) : StemHyp (toyEnv T) := by
+  intro _
+  simp only [ToyTableOK, Bool.and_eq_true] at h
+  exact ⟨h.1, toyU_lowerKeyFree T toyStem h.2, toyStem_bounded T⟩
+
+theorem toyTableOK_srcLangs : Gen.srcLangs.all (fun p => ToyTableOK p.2) = true := by decide
+
 /-- non-vacuity of `C15_query` / `C15_record`: all hypotheses hold for the toy oracle with the generated
     English and German tables (stemmer on) and with `lang_none` (no stem hypothesis needed) -/
 example (s : List Nat) : TokInv (toyEnv Gen.lang_en) true s (runSteps (toyEnv Gen.lang_en) Gen.srcQuerySteps s) :=
-  C15_query _ rfl toyU_facts tablesOK_en (fun _ => toyStem_bounded _) s
+  C15_query _ rfl toyU_facts tablesOK_en (toyStemHyp _ (by decide)) s
 
 example (s : List Nat) : TokInv (toyEnv Gen.lang_de) false s (runSteps (toyEnv Gen.lang_de) Gen.srcRecordSteps s) :=
-  C15_record _ rfl toyU_facts tablesOK_de (fun _ => toyStem_bounded _) s
+  C15_record _ rfl toyU_facts tablesOK_de (toyStemHyp _ (by decide)) s
 
 example (s : List Nat) :
     TokInv (toyEnv Gen.lang_none) true s (runSteps (toyEnv Gen.lang_none) Gen.srcQuerySteps s) :=
   C15_query _ rfl toyU_facts tablesOK_none (stemHyp_of_no_stemmer _ (by decide)) s
+
+/-! ### the restricted stem hypothesis is satisfiable by a stemmer that lengthens `ß` (as German Snowball does) -/
+
+/-- a stemmer oracle behaving like the real German Snowball stemmer on `ß` (U+00DF = 223): every `ß` counts
+    twice (the stemmer rewrites it to `ss`), so `deStem "ß" = 2 > 1` -/
+def deStem (w : List Nat) : Nat := w.length + w.count 223
+
+def eszettEnv : Env := { U := toyU, K := Gen.srcConsts, T := Gen.lang_de, stem := deStem }
+
+theorem deStem_eszett : eszettEnv.stem [223] = 2 := by decide
+
+/-- the OLD, unrestricted bound (`∀ w ≠ [], 1 ≤ stem w ≤ |w|`) is false for this oracle … -/
+theorem deStem_not_unrestricted :
+    ¬ (∀ w : List Nat, w ≠ [] → 1 ≤ eszettEnv.stem w ∧ eszettEnv.stem w ≤ w.length) := by
+  intro h
+  have := (h [223] (by simp)).2
+  rw [deStem_eszett] at this
+  simp at this
+
+/-- … but the restricted `StemBounded` holds: a word free of German reduce-table keys contains no `ß` -/
+theorem deStem_bounded : StemBounded eszettEnv := by
+  intro w hw hk
+  have hl : 0 < w.length := List.length_pos_iff.2 hw
+  have h0 : w.count 223 = 0 := by
+    rw [List.count_eq_zero]
+    intro hm
+    have := hk 223 hm
+    revert this
+    decide
+  show 1 ≤ w.length + w.count 223 ∧ w.length + w.count 223 ≤ w.length
+  omega
+
+theorem eszett_stemHyp : StemHyp eszettEnv :=
+  fun _ => ⟨foldClosed_de, toyU_lowerKeyFree Gen.lang_de deStem (by decide), deStem_bounded⟩
+
+/-- **non-vacuity for German**: `C15_query` / `C15_record` instantiated with the German tables and a stemmer
+    oracle that, like the real one, returns 2 on `"ß"` -/
+theorem C15_query_eszett (s : List Nat) : TokInv eszettEnv true s (runSteps eszettEnv Gen.srcQuerySteps s) :=
+  C15_query _ rfl toyU_facts tablesOK_de eszett_stemHyp s
+
+theorem C15_record_eszett (s : List Nat) : TokInv eszettEnv false s (runSteps eszettEnv Gen.srcRecordSteps s) :=
+  C15_record _ rfl toyU_facts tablesOK_de eszett_stemHyp s
+
+/-- `"Maß"` with the `ß`-doubling stemmer: the stemmer sees `mass` (4 characters, no `ß`), stem 4 ≤ len 4 -/
+example : (runSteps eszettEnv Gen.srcRecordSteps [77, 97, 223]).words.map (fun w => (w.lo, w.hi, w.stem)) =
+    [(0, 4, 4)] := by decide +kernel
 
 /-- `"The Fox', 1st"` as a query: three words, the apostrophe is stripped (so `Fox` is finished), the last
     word reaches the end and is unfinished; `The` is recognised as an article after lowering -/
